@@ -79,6 +79,7 @@ type Exec struct {
 	strLits     map[string]Term
 	siteOrd     map[ssa.Instruction]int
 	kindCount   map[string]int
+	coverCount  map[string]int
 	obSeen      map[string]bool
 	callOrds    map[*ssa.Function]map[ssa.Instruction]int
 	returns     int
@@ -658,6 +659,9 @@ func (ex *Exec) enterBlock(st *State, b *ssa.BasicBlock, from *ssa.BasicBlock) {
 		ex.checkInvariants(st, fr.fn, l, "inv-init")
 		ex.havocLoop(st, fr, l)
 		ex.assumeInvariants(st, fr.fn, l)
+		if fr.fn == ex.fn {
+			ex.coverPoint(st, fmt.Sprintf("loop%d", l.ordinal), "vacuity guard: the loop invariants are satisfiable together with the havoc'd state")
+		}
 		ent := &loopEntry{}
 		if ls := ex.loopSpec(fr.fn, l); ls != nil && ls.Decreases != nil {
 			ent.measure = ex.loopMeasure(st, fr.fn, l)
